@@ -185,7 +185,8 @@ TIES = {
                            "needs": ["lookup_enc", "lookup_dec", "options", "encode", "encode_stmt", "flows", "streams", "decode", "decoder_base", "decoder",
                                      "generic_sink", "generic_parse", "generic_serialize"],
                            "theorems": ["grmsg_owner", "generic_reads_written_frames", "C01_source_generic_triples", "C01_source_generic_quads",
-                                        "C01_source_generic_graphs", "C04_source_generic_reads_valid_streams", "C14_source_generic_triples"]},
+                                        "C01_source_generic_graphs", "C04_source_generic_reads_valid_streams", "C14_source_generic_triples",
+                                        "C04_source_generic_flat_parser"]},
     # clauses of C16 / C13 directly about the translated Decoder, for ANY adapter (no model in the statement, nothing assumed of the adapter)
     "decoder_source": {"sources": ["pyjelly/parse/decode.py"], "unit": "decode", "gen": "DecodeGen", "tie": "DecoderSource", "needs": [],
                        "needs_gen": ["lookup_dec", "options"], "props": ["C16", "C13"],
@@ -428,7 +429,7 @@ def source_ties(ctx, po: dict, pid: str) -> list[str]:
             ctx.report.count("translation-cross-check/streams", tx_n)
             w = tx_stats.get("writer")
             ctx.report.notes.append("translation cross-check: the generated Gallina, evaluated by vm_compute, against the real code of this tree"
-                                    + (f"; reader chain (options_from_frame, generic adapters, Decoder.iter_rows): same yields and same exception classes on "
+                                    + (f"; reader chain (options_from_frame, parse_jelly_flat with the generic adapters and Decoder.iter_rows): same yields and same exception classes on "
                                        f"{tx_stats.get('valid', 0)} streams of the reference encoder as they are and {tx_stats.get('mutated', 0)} with one mutation "
                                        f"({tx_stats.get('yields', 0)} objects yielded; exceptions compared: {tx_stats.get('exceptions', {})})" if "valid" in tx_stats else "")
                                     + (f"; writer chain (options, TermEncoder with the generic dispatchers, TripleStream / QuadStream, flows): same frames, field for "
